@@ -630,7 +630,9 @@ impl<TActor: ThreadLocalActor> ThreadLocalActorRuntime<TActor> {
         handler: &TActor,
         arguments: TActor::Arguments,
     ) -> Result<Result<TActor::State, ActorProcessingErr>, SpawnErr> {
-        let future = handler.pre_start(myself, arguments);
+        // the callback is invoked inside the caught future: a hook written as a plain
+        // `fn .. -> impl Future` may panic while building its future
+        let future = async move { handler.pre_start(myself, arguments).await };
         futures::FutureExt::catch_unwind(AssertUnwindSafe(future))
             .await
             .map_err(|err| SpawnErr::StartupFailed(get_panic_string(err)))
@@ -641,7 +643,9 @@ impl<TActor: ThreadLocalActor> ThreadLocalActorRuntime<TActor> {
         handler: &TActor,
         state: &mut TActor::State,
     ) -> Result<Result<(), ActorProcessingErr>, ActorErr> {
-        let future = handler.post_start(myself, state);
+        // the callback is invoked inside the caught future: a hook written as a plain
+        // `fn .. -> impl Future` may panic while building its future
+        let future = async move { handler.post_start(myself, state).await };
         futures::FutureExt::catch_unwind(AssertUnwindSafe(future))
             .await
             .map_err(|err| ActorErr::Failed(get_panic_string(err)))
@@ -652,7 +656,9 @@ impl<TActor: ThreadLocalActor> ThreadLocalActorRuntime<TActor> {
         handler: &TActor,
         state: &mut TActor::State,
     ) -> Result<Result<(), ActorProcessingErr>, ActorErr> {
-        let future = handler.post_stop(myself, state);
+        // the callback is invoked inside the caught future: a hook written as a plain
+        // `fn .. -> impl Future` may panic while building its future
+        let future = async move { handler.post_stop(myself, state).await };
         futures::FutureExt::catch_unwind(AssertUnwindSafe(future))
             .await
             .map_err(|err| ActorErr::Failed(get_panic_string(err)))
